@@ -49,7 +49,12 @@ def build_lib_ir(scratch):
     return outs
 
 
-def build_lib_native(scratch):
+MSANFLAGS = ['-O0', '-g', '-std=gnu99', '-w', '-fsanitize=memory', '-fno-omit-frame-pointer']
+
+
+def build_lib_native(scratch, msan=False):
+    if msan:
+        return _build_lib_msan(scratch)
     os.makedirs(scratch + '/nat', exist_ok=True)
     srcs = lib_sources() + [HERE + '/sym_native.c']
     outs = {}
@@ -91,5 +96,28 @@ def link_harness_native(scratch, libn, harness, defines, entry, tag):
     skip = set(unity_of(harness))
     objs = [p for n, p in sorted(libn.items()) if n not in skip]
     run(['clang'] + NATFLAGS + INC + def_flags(defines) + ['-DSYM_ENTRY=' + entry, harness, HERE + '/sym_native.c']
+        + objs + ['-lm', '-o', out])
+    return out
+
+
+def _build_lib_msan(scratch):
+    os.makedirs(scratch + '/msan', exist_ok=True)
+    outs = {}
+    with ThreadPoolExecutor(8) as tp:
+        futs = []
+        for s in lib_sources():
+            o = scratch + '/msan/' + os.path.basename(s)[:-2] + '.o'
+            outs[os.path.basename(s)] = o
+            futs.append(tp.submit(run, ['clang'] + MSANFLAGS + INC + ['-c', s, '-o', o]))
+        for f in futs:
+            f.result()
+    return outs
+
+
+def link_harness_msan(scratch, libm, harness, defines, entry, tag):
+    out = scratch + '/msan/h_%s' % tag
+    skip = set(unity_of(harness))
+    objs = [p for n, p in sorted(libm.items()) if n not in skip]
+    run(['clang'] + MSANFLAGS + INC + def_flags(defines) + ['-DSYM_ENTRY=' + entry, harness, HERE + '/sym_native.c']
         + objs + ['-lm', '-o', out])
     return out
